@@ -382,7 +382,8 @@ def judge(ctx, base, fault, r, cls, one):
         ctx.mon("line_failpoint_loading")
         ctx.expect(not changed, "line0-fault:files-changed-by-a-failure-while-loading", **detail)
         ctx.expect(not writes, "line0-fault:write-events", **detail)
-        ctx.expect(isinstance(r["raised"], fsmon.InjectedFault), "line0-fault:exception-swallowed-or-translated", **detail)
+        # which exception type comes out of a failed load is not claimed, only that the block cannot have run
+        ctx.expect(r["raised"] is not None and "S0" not in r["snaps"], "line0-fault:body-ran-although-loading-failed", **detail)
         return
 
     if fc in ("int", "badreplace", "chart_without_notes", "unencodable"):
